@@ -106,36 +106,36 @@ impl PushParser {
         }
     }
 
+    /// Returns the text between the type prefix of a vector literal (`prefix_len` bytes) and its
+    /// last character, or None if the token has no room for a closing bracket.
+    fn vector_payload(token: &str, prefix_len: usize) -> Option<&str> {
+        match token.char_indices().last() {
+            Some((last_start, _)) if last_start >= prefix_len => Some(&token[prefix_len..last_start]),
+            _ => None,
+        }
+    }
+
     /// Splits a string into tokens and front pushes it to the stack s.t. the
     /// end of the string ends up at the top of the stack.
     pub fn parse_program(push_state: &mut PushState, instruction_set: &InstructionSet, code: &str) {
         let mut depth = 0;
         for token in code.split_whitespace() {
             if token.starts_with("INT[") {
-                PushParser::parse_vector(
-                    push_state,
-                    depth,
-                    &VectorType::Int,
-                    &token[4..token.len() - 1],
-                );
+                if let Some(payload) = PushParser::vector_payload(token, 4) {
+                    PushParser::parse_vector(push_state, depth, &VectorType::Int, payload);
+                }
                 continue;
             }
             if token.starts_with("FLOAT[") {
-                PushParser::parse_vector(
-                    push_state,
-                    depth,
-                    &VectorType::Float,
-                    &token[6..token.len() - 1],
-                );
+                if let Some(payload) = PushParser::vector_payload(token, 6) {
+                    PushParser::parse_vector(push_state, depth, &VectorType::Float, payload);
+                }
                 continue;
             }
             if token.starts_with("BOOL[") {
-                PushParser::parse_vector(
-                    push_state,
-                    depth,
-                    &VectorType::Bool,
-                    &token[5..token.len() - 1],
-                );
+                if let Some(payload) = PushParser::vector_payload(token, 5) {
+                    PushParser::parse_vector(push_state, depth, &VectorType::Bool, payload);
+                }
                 continue;
             }
             if "(" == token {
@@ -151,8 +151,10 @@ impl PushParser {
                 continue;
             }
             if ")" == token {
-                // End of (sub) list
-                depth -= 1;
+                // End of (sub) list; a closing parenthesis without an open list is ignored
+                if depth > 0 {
+                    depth -= 1;
+                }
                 continue;
             }
 
